@@ -420,7 +420,7 @@ class Norm:
         if not isinstance(n, dict):
             return
         k = n.get("k")
-        if k in ("Call", "MethodCall"):
+        if k in ("Call", "MethodCall") or (k == "Path" and n.get("r") == "def" and n.get("dk") in ("Fn", "AssocFn")):
             self.call_depth[id(n)] = depth
         if k is None and "stmts" in n:
             # statements after `if c { continue }` / `let PAT = X else { continue }` run under the complementary condition
@@ -821,6 +821,30 @@ class Norm:
             return None       # recursive helper
         return fn
 
+    def _eta(self, path, node):
+        """a transparent helper used as a value (`.map(helper)`) is the closure `|a, ..| helper(a, ..)` with the helper inlined"""
+        if path in self._stack or len(self._stack) > INLINE_MAX_DEPTH:
+            return None
+        fn = self.transparent_fn(path)
+        if fn is None or fn["path"] in self._stack:
+            return None
+        sub = Norm(fn, program=self.program, keep=self.keep, _stack=self._stack)
+        t = sub.term(fn["body"])
+        if len(_show(t)) > INLINE_MAX_SIZE:
+            return None
+        d = self.call_depth.get(id(node), self._cur_depth) + 1
+        n = len(fn.get("params", []))
+
+        def subst(x):
+            if x[0] == "param":
+                return ("cparam", d, x[1])
+            if x[0] == "cparam":
+                return ("cparam", x[1] + d, x[2])
+            if x[0] == "closure":
+                return ("closure", x[1] + d, x[2], x[3])
+            return None
+        return ("closure", d, n, _unreturn(rewrite(t, subst)))
+
     def _inline_call(self, callee, arg_nodes, node):
         """term of a call to a repo-local helper that no rule names: the helper's own term with arguments substituted"""
         if callee in self._stack or len(self._stack) > INLINE_MAX_DEPTH:
@@ -968,6 +992,10 @@ class Norm:
         if k == "Path":
             if e.get("r") == "local":
                 return self.local_term(e["id"])
+            if e.get("dk") in ("Fn", "AssocFn") and e.get("path"):
+                eta = self._eta(e["path"], e)
+                if eta is not None:
+                    return eta
             return ("def", cshort(e.get("path", "?")))
         if k == "Lit":
             return ("lit", e.get("v"))
@@ -1045,6 +1073,11 @@ class Norm:
             if not args and name in ("Option::is_some", "Option::is_none", "Result::is_ok", "Result::is_err"):
                 c = _let({"Option::is_some": "v1::Some($)", "Option::is_none": "v1::Some($)", "Result::is_ok": "v1::Ok($)", "Result::is_err": "v1::Err($)"}[name], recv)
                 return _not(c) if name == "Option::is_none" else c
+            if name == "Entry::or_insert_with" and len(args) == 1 and (args[0] == ("def", "Default::default") or (
+                    args[0][0] == "closure" and args[0][2] == 0 and args[0][3] == ("call", "Default::default", []))):
+                return ("call", "Entry::or_default", [recv])
+            if name == "Entry::or_insert" and len(args) == 1 and args[0] == ("call", "Default::default", []):
+                return ("call", "Entry::or_default", [recv])
             if name == "Option::unwrap_or" and len(args) == 1:
                 return _mk_iflet("v1::Some($)", recv, _proj_some(recv), args[0])
             if name == "Option::unwrap_or_else" and len(args) == 1 and args[0][0] == "closure" and args[0][2] == 0:
